@@ -72,6 +72,7 @@ class FuncInfo:
     parent: Optional["FuncInfo"] = None
     decorators: List[str] = field(default_factory=list)
     nested: Dict[str, "FuncInfo"] = field(default_factory=dict)
+    nested_all: List["FuncInfo"] = field(default_factory=list)
 
     @property
     def params(self) -> List[str]:
@@ -239,17 +240,23 @@ class Program:
             elif d.endswith(".deleter"):
                 role = "del"
                 qual = qual + ".deleter"
+        base_qual = qual
+        k = 2
+        while qual in self.funcs:  # same name defined again (conditional definitions): keep all
+            qual = f"{base_qual}#{k}"
+            k += 1
         fi = FuncInfo(name, qual, m, node, cls, parent, decs)
         self.funcs[qual] = fi
         if parent is not None:
-            parent.nested[name] = fi
+            parent.nested.setdefault(name, fi)
+            parent.nested_all.append(fi)
         if cls is not None and parent is None:
             if "property" in decs or role != "get":
                 cls.properties.setdefault(name, {})[role] = fi
             else:
                 cls.methods[name] = fi
         # nested functions and classes
-        self._index_locals(m, node.body, fi, qual + ".<locals>.")
+        self._index_locals(m, node.body, fi, base_qual + ".<locals>.")
 
     def _index_locals(self, m, body, fi, prefix):
         for st in body:
